@@ -24,7 +24,7 @@ def build_isolation(ex):
 
 
 PLAN = dict(
-    id="C07", level="proof", explanation="Per-layer filter isolation as frame conditions on the per-thread bitmap: FilterMap/FilterId bit algebra over the full u64 domain; FilterState::{set, and, did_enable, add_interest} as exact state transformers from an arbitrary bitmap; every Filtered callback (enabled, event_enabled, on_event, on_new_span, on_enter/exit/close/record/id_change, on_follows_from, register_callsite) touches only its own bit, calls the wrapped layer iff its own filter accepted (for span lifecycle: iff the span's stored map has its bit clear) and never vetoes for others - each proved loop-free from an arbitrary thread bitmap and an arbitrary filter id (0..62) with symbolic filters. Two whole-emission harnesses through a real Layered stack (two Filtered layers; Filtered + global layer) show layer i receives iff its own (and the global) filter accepts and the bitmap is empty again (I7). A Verus lemma layer (lemma_c07.verus.rs, bit_vector) lifts the per-callback frame contracts to any stack of up to 64 per-layer filters evaluated in any order: after the enabled pass the bit of filter k is exactly filter k's own verdict (whatever the others said and whatever was left in the bitmap), and a complete emission clears every bit again. The probe obligation (enabled without dispatch) is known finding F3.",
+    id="C07", api_files=['tracing-subscriber/src/filter/subscriber_filters/mod.rs'], level="proof", explanation="Per-layer filter isolation as frame conditions on the per-thread bitmap: FilterMap/FilterId bit algebra over the full u64 domain; FilterState::{set, and, did_enable, add_interest} as exact state transformers from an arbitrary bitmap; every Filtered callback (enabled, event_enabled, on_event, on_new_span, on_enter/exit/close/record/id_change, on_follows_from, register_callsite) touches only its own bit, calls the wrapped layer iff its own filter accepted (for span lifecycle: iff the span's stored map has its bit clear) and never vetoes for others - each proved loop-free from an arbitrary thread bitmap and an arbitrary filter id (0..62) with symbolic filters. Two whole-emission harnesses through a real Layered stack (two Filtered layers; Filtered + global layer) show layer i receives iff its own (and the global) filter accepts and the bitmap is empty again (I7). A Verus lemma layer (lemma_c07.verus.rs, bit_vector) lifts the per-callback frame contracts to any stack of up to 64 per-layer filters evaluated in any order: after the enabled pass the bit of filter k is exactly filter k's own verdict (whatever the others said and whatever was left in the bitmap), and a complete emission clears every bit again. The probe obligation (enabled without dispatch) is known finding F3.",
     functions_under_contract=['tracing-subscriber/src/filter/subscriber_filters/mod.rs: FilterMap::{set,is_enabled,any_enabled}, FilterId::{new,and,none,disabled}, FilterState::{set,and,did_enable,add_interest,take_interest,event_enabled,clear_enabled}, impl Subscribe for Filtered (all callbacks)', 'subscribe/context.rs: Context::{with_filter,is_enabled_for,if_enabled_for,span}; registry/mod.rs SpanRef::try_with_filter', 'subscribe/layered.rs: Layered::{enabled,event_enabled,event} on the emission path'],
     trusted_base=["Kani 0.68 / CBMC 6.11 / CaDiCaL; Kani's std build (nightly-2026-08-21), not the repo toolchain's", 'core::fmt::Formatter::pad stubbed to Ok(()) with -Z stubbing (panic-message formatting on infeasible error branches; no harness that uses it reads formatted text)', 'sharded_slab::Pool::clear stubbed (Layered::try_close mentions Registry; never called by these harnesses)', 'thread_local! shim: FILTERING is one static'],
     assumptions=["the root collector is a stub that implements LookupSpan over a symbolic span table and mirrors the three FilterState-facing lines of the real Registry (enabled/event_enabled = FilterState::event_enabled, register_callsite = take_interest); the real Registry (sharded_slab pool) is out of Kani's reach", 'two stacks on two threads: per-thread state, frame assumption'],
